@@ -597,6 +597,9 @@ fn many_instances_leg(ctx: &Ctx, l: &mut Local, all_salts: &mut Vec<String>, all
             break;
         }
     }
+    for (sub, obs, detail) in std::mem::take(&mut h.problems).into_iter().take(5) {
+        l.violate(Violation { subcheck: sub, class: "issuers of the many-instances leg (HS256 / HS384 / HS512)".into(), observed: obs, case: 0, detail });
+    }
     l.add("many-instances.created", created);
     l.add("many-instances.salts", h.salts.len() as u64);
     let info = json!({"instances_created": created, "windows_of_64_at": targets, "salts": h.salts.len(), "decoy_digests": h.decoys.len(), "wall_s": t0.elapsed().as_secs_f64()});
